@@ -80,6 +80,10 @@ func (vc *FnVC) generate() {
 			t := vc.trBool(cl.E, env)
 			vc.emit(t)
 		}
+		for _, cl := range vc.fc.Assuming {
+			vc.enc.usedAssumptions["scope of the proof of "+vc.shortName()+": "+cl.Src] = true
+			vc.emit(vc.trBool(cl.E, env))
+		}
 		vc.evalModifies(env)
 	}
 	for _, a := range vc.extraAssume {
@@ -195,23 +199,33 @@ func (vc *FnVC) mergeStates(b *ssa.BasicBlock, es []edge) *State {
 	first := vc.out[es[0].from]
 	sameEpoch := true
 	for _, e := range es[1:] {
-		if vc.out[e.from].epoch != first.epoch {
+		if !vc.out[e.from].sameEpochs(first) {
 			sameEpoch = false
 		}
 	}
-	st := &State{epoch: first.epoch, gepoch: first.gepoch, comp: map[string]string{}}
-	for _, e := range es[1:] {
-		if vc.out[e.from].gepoch != first.gepoch {
-			sameEpoch = false
-		}
+	st := &State{ep: map[string]int{}, comp: map[string]string{}}
+	for k, v := range first.ep {
+		st.ep[k] = v
 	}
 	if !sameEpoch {
-		vc.epochCtr++
-		st.epoch = vc.epochCtr
-		st.gepoch = vc.epochCtr
-		// keep what is known about every component seen so far
+		// keep what is known about every component seen so far, then start fresh epochs for
+		// the classes on which the incoming states disagree
 		for _, e := range es {
 			vc.materialize(vc.out[e.from])
+		}
+		vc.epochCtr++
+		classes := map[string]bool{}
+		for _, e := range es {
+			for k := range vc.out[e.from].ep {
+				classes[k] = true
+			}
+		}
+		for c := range classes {
+			for _, e := range es[1:] {
+				if vc.out[e.from].ep[c] != first.ep[c] {
+					st.ep[c] = vc.epochCtr
+				}
+			}
 		}
 	}
 	keys := map[string]bool{}
@@ -257,9 +271,14 @@ func (vc *FnVC) mergeStates(b *ssa.BasicBlock, es []edge) *State {
 func (vc *FnVC) enterLoop(h *ssa.BasicBlock, li *loopInfo, st *State) {
 	vc.checkInvariants(h, li, st, nil, "entry")
 	// havoc
-	mods, all := vc.loopModifies(li)
+	mods, all, keep := vc.loopModifies(li)
 	if all {
-		vc.havocAll(st)
+		vc.havocAll(st, keep...)
+		for _, c := range mods {
+			if _, ok := vc.compSort[c]; ok && c != "alloc" {
+				vc.havocComp(st, c)
+			}
+		}
 	} else {
 		alloc := vc.alloc(st)
 		for _, c := range mods {
@@ -330,6 +349,23 @@ func (vc *FnVC) fnTags() []string {
 // autoInvariants: for a range-over-slice/string loop, -1 <= idx < len.
 func (vc *FnVC) autoInvariants(h *ssa.BasicBlock, st *State) []string {
 	var out []string
+	// range over a map: every key seen so far is a key of the map
+	for _, p := range h.Preds {
+		for _, ins := range p.Instrs {
+			rg, ok := ins.(*ssa.Range)
+			if !ok {
+				continue
+			}
+			mt, isMap := rg.X.Type().Underlying().(*types.Map)
+			if !isMap || vc.loops[h] == nil || vc.loops[h].body[p] {
+				continue
+			}
+			c := vc.seenCompFor(rg)
+			ks := vc.enc.sortOf(mt.Key())
+			q := "qs$" + sanitize(rg.Name())
+			out = append(out, "(forall (("+q+" "+ks+")) (=> (select "+vc.cur(st, c)+" "+q+") "+vc.mapHas(st, mt, vc.term(rg.X).S, q)+"))")
+		}
+	}
 	for _, ins := range h.Instrs {
 		phi, ok := ins.(*ssa.Phi)
 		if !ok {
@@ -365,6 +401,39 @@ func isConst(v ssa.Value) bool { _, ok := v.(*ssa.Const); return ok }
 // loopEnv binds phi names (and #i) for invariants at header h.
 func (vc *FnVC) loopEnv(h *ssa.BasicBlock, st *State) *Env {
 	env := vc.newEnv(st, vc.entry)
+	// source-level names of values defined before the loop (debug references in dominators)
+	for _, b := range vc.fn.Blocks {
+		if b == h || !b.Dominates(h) {
+			continue
+		}
+		for _, ins := range b.Instrs {
+			d, ok := ins.(*ssa.DebugRef)
+			if !ok {
+				continue
+			}
+			obj := d.Object()
+			if obj == nil {
+				continue
+			}
+			v, defined := vc.vals[d.X]
+			if !defined {
+				if _, isC := d.X.(*ssa.Const); !isC {
+					continue
+				}
+				v = vc.val(d.X)
+			}
+			if d.IsAddr {
+				if v.k == vTerm {
+					env.vars["&"+obj.Name()] = v
+				}
+				continue
+			}
+			if _, isParam := vc.params[obj.Name()]; isParam {
+				continue
+			}
+			env.vars[obj.Name()] = v
+		}
+	}
 	for _, ins := range h.Instrs {
 		phi, ok := ins.(*ssa.Phi)
 		if !ok {
@@ -394,8 +463,9 @@ func (vc *FnVC) loopEnv(h *ssa.BasicBlock, st *State) *Env {
 }
 
 // loopModifies computes the heap components a loop body may write (type-based).
-func (vc *FnVC) loopModifies(li *loopInfo) (comps []string, all bool) {
+func (vc *FnVC) loopModifies(li *loopInfo) (comps []string, all bool, keep []string) {
 	set := map[string]bool{}
+	var keepSet map[string]bool // intersection of what the `modifies *` calls keep
 	for b := range li.body {
 		for _, ins := range b.Instrs {
 			switch x := ins.(type) {
@@ -438,9 +508,22 @@ func (vc *FnVC) loopModifies(li *loopInfo) (comps []string, all bool) {
 					}
 				}
 			case ssa.CallInstruction:
-				cs, a := vc.callModifies(x.Common())
+				cs, a, kp := vc.callModifies(x.Common())
 				if a {
-					return nil, true
+					all = true
+					ks := map[string]bool{}
+					for _, k := range kp {
+						ks[k] = true
+					}
+					if keepSet == nil {
+						keepSet = ks
+					} else {
+						for k := range keepSet {
+							if !ks[k] {
+								delete(keepSet, k)
+							}
+						}
+					}
 				}
 				for _, c := range cs {
 					set[c] = true
@@ -452,7 +535,11 @@ func (vc *FnVC) loopModifies(li *loopInfo) (comps []string, all bool) {
 		comps = append(comps, c)
 	}
 	sort.Strings(comps)
-	return comps, false
+	for k := range keepSet {
+		keep = append(keep, k)
+	}
+	sort.Strings(keep)
+	return comps, all, keep
 }
 
 // compsOfAddr: components a store through addr may write (by type).
